@@ -113,7 +113,7 @@ Section P.
 
   Lemma durq_step q s st o : s q = mem st -> step_ok false q s st o.
   Proof.
-    intros I. unfold step_ok. destruct o; cbn [qstep ref_step st_step spec_io res_specified andb].
+    intros I. unfold step_ok. destruct o; unfold qstep; cbn [gstep ref_step res_specified andb]; unfold spec_view, spec_sstep; cbn [spec_io andb].
     - fin I.
     - fin I.
     - destruct vs as [|v vs]; fin I.
@@ -121,8 +121,8 @@ Section P.
     - rewrite I. destruct (mem st) as [|v m] eqn:M; fin I.
     - fin I.
     - fin I.
-    - unfold sync. destruct (stale st || force); [rewrite I; destruct (mem st) as [|v m] eqn:M|]; fin I.
-    - unfold sync, fresh; cbn. rewrite I. destruct (mem st) as [|v m] eqn:M; fin I.
+    - unfold gsync; unfold spec_view, spec_sstep. destruct (stale st || force); [rewrite I; destruct (mem st) as [|v m] eqn:M|]; fin I.
+    - unfold gsync, fresh; unfold spec_view, spec_sstep; cbn. rewrite I. destruct (mem st) as [|v m] eqn:M; fin I.
   Qed.
 
   (* ---- whole histories over several queues ---- *)
@@ -142,14 +142,15 @@ Section P.
       Forall (fun qo => W (snd qo)) ops ->
       run_ok ops (qrun pyeq set s qs ops) (ref_run pyeq set (fun q => mem (qs q)) ops).
   Proof.
-    intros Hstep. induction ops as [|[q o] ops IH]; intros s qs Inv Wf; simpl; [exact I|].
+    intros Hstep. unfold step_ok in *. unfold qrun, qstep in *.
+    induction ops as [|[q o] ops IH]; intros s qs Inv Wf; simpl; [exact I|].
     inversion Wf as [|? ? Wo Wf']; subst. simpl in Wo.
     destruct (Inv q) as [Iq Pq].
-    destruct (Hstep q s (qs q) o Iq Pq Wo) as [Hok HP]. unfold step_ok in Hok.
-    destruct (qstep pyeq set q s (qs q) o) as [[s' st'] r] eqn:Q. simpl in HP.
+    destruct (Hstep q s (qs q) o Iq Pq Wo) as [Hok HP].
+    destruct (gstep pyeq store spec_sstep spec_view set q s (qs q) o) as [[s' st'] r] eqn:Q. simpl in HP. cbv beta iota in Hok.
     destruct Hok as [Hs [Hfr [Hm Hr]]].
     destruct (ref_step pyeq set (mem (qs q)) o) as [l' r'] eqn:R. simpl in Hm, Hr.
-    simpl. repeat split; auto; try congruence.
+    simpl. unfold spec_view at 1. repeat split; auto; try congruence.
     rewrite (ref_run_ext set ops _ (fun q' => mem (qupd qs q st' q'))).
     - apply IH; auto. intros q'. unfold qupd. destruct (N.eqb q' q) eqn:E.
       + apply N.eqb_eq in E. subst. auto.
@@ -237,7 +238,7 @@ Section P.
     step_ok true q s st o /\ NoDup (mem (snd (fst (qstep pyeq true q s st o)))).
   Proof.
     intros I ND W. unfold step_ok.
-    destruct o; cbn [qstep ref_step st_step spec_io res_specified andb].
+    destruct o; unfold qstep; cbn [gstep ref_step res_specified andb]; unfold spec_view, spec_sstep; cbn [spec_io andb].
     - (* Push *) unfold oset_add. rewrite pymem, I.
       destruct (existsb (bytes_eqb v) (mem st)) eqn:E.
       + rewrite Nat.ltb_irrefl. cbn. split; [fin I|auto].
@@ -262,11 +263,11 @@ Section P.
         induction l as [|x l IH]; simpl in *; auto.
         destruct (bytes_eqb v x) eqn:B; [apply bytes_eqb_eq in B; subst; exfalso; apply E; now left|].
         f_equal. apply IH. tauto.
-    - (* Sync *) unfold sync. destruct (stale st || force); [rewrite I; destruct (mem st) as [|v m] eqn:M|]; cbn -[oset_update].
+    - (* Sync *) unfold gsync; unfold spec_view, spec_sstep. destruct (stale st || force); [rewrite I; destruct (mem st) as [|v m] eqn:M|]; cbn -[oset_update].
       + split; [fin I|]. rewrite ?M. constructor.
       + rewrite oset_load by assumption. split; [fin I|]; auto.
       + split; [fin I|auto].
-    - (* Reopen *) unfold sync, fresh; cbn -[oset_update]. rewrite I. destruct (mem st) as [|v m] eqn:M; cbn -[oset_update].
+    - (* Reopen *) unfold gsync, fresh; unfold spec_view, spec_sstep; cbn -[oset_update]. rewrite I. destruct (mem st) as [|v m] eqn:M; cbn -[oset_update].
       + rewrite oset_pre. change (dedupe_acc [] (dedupe pre)) with (dedupe (dedupe pre)).
         rewrite (dedupe_id (dedupe pre)) by apply dedupe_nodup.
         split; [fin I|]. apply dedupe_nodup.
